@@ -75,6 +75,12 @@ def submit(tag, mk, res, desc=None):
         res.count(f"generated[{tag}]")
         try:
             e = mk(sess) if mk.__code__.co_argcount else mk()
+            if res.counters[f"generated[{tag}]"] % 3 == 0 and \
+                    hasattr(e, "kern_version"):
+                # (EBPF(..., kern_version=...): the LINUX_VERSION_CODE
+                # classic loaders pass; the kernel ignores it for XDP)
+                e.kern_version = 0x6122c
+                res.count("programs_with_a_kern_version")
             ld = prog.Loaded(e, sess)
         except AssembleError as ex:
             res.count(f"not_accepted[{tag}]")
